@@ -194,7 +194,7 @@ PROPS_EXTRA['C03'] = {
         'the theorems speak about the reference run (nothing stops a call: unlimited budget, last = true); that chunking and small buffers do not change the output is C04',
     ],
     'partial': [
-        'encRepl_html (PENDING in Thm/C03.lean): the induction over the source-buffer bookkeeping of Model.encRepl is not done; proved instead: encode_conforms/encRepl_html_partial (NCR per report at the level of characters = the Standard\'s html mode), eref_is_raw_api, ncr_decimal; the wrapper is tied to the code by the enc correspondence and end to end by specenc',
+        'encRepl_html / encode_from_utf16_conforms / encode_from_utf8_conforms are about wrapper calls that end with InputEmpty and whose inner raw calls are not stopped (budget list []): where an OutputFull stop may happen and that stopping does not change the concatenated output is C04',
         'UTF-8 source: utf8_source_reads is about the UTF-8 form of a scalar-value text (valid UTF-8, as &str guarantees); read8 on invalid bytes is unspecified',
     ],
 }
@@ -212,12 +212,12 @@ MANIFEST_TEXT_EXTRA['C03'] = {
         'last pointer for U+2550/255E/2561/256A/5341/5345), EUC-KR, EUC-JP, Shift_JIS (8272..8835 excluded), GBK and gb18030 (U+E5E5 error, 0x80 for U+20AC in GBK, the 18 GB18030-2022 rows, ranges '
         'pointer with U+E7C7 -> 7457), ISO-2022-JP for all 3 states incl. restore chains - by complete evaluation of all 1 114 112 code points against the vendored WHATWG indexes (first pointer = linear '
         'search in the definition; the inverse table used for the evaluation is itself checked, kernel lemma indexPointer_eq_invLookup). utf16_source_reads (any unit list -> lossy scalar values), '
-        'utf8_source_reads, ncr_decimal + decimalDigits_shortest, output_encoding_utf8, utf8_never_unmappable. Implementation tied to the executable Standard by ~3.5*10^5 (quick) / 1.5*10^6 operations '
+        'utf8_source_reads, ncr_decimal + decimalDigits_shortest, encRepl_html (the NCR wrapper of lib.rs with its total_read / NCR_EXTRA bookkeeping writes exactly that when it ends with InputEmpty) and the end-to-end corollaries encode_from_utf16_conforms (any UTF-16 unit buffer) / encode_from_utf8_conforms, output_encoding_utf8, utf8_never_unmappable. Implementation tied to the executable Standard by ~3.5*10^5 (quick) / 1.5*10^6 operations '
         '(thorough: every scalar x 40 encodings) per run; thorough sweep at build time: 0 disagreements.'
     ),
     'note': (
         'Trusted: Lean kernel + native_decide for 37 finite table evaluations (listed by axiom name in the evidence); Spec/Encode.lean as the reading of the Standard; vendored indexes '
         '(multi-byte: reconstructed from tests/test_data independently of data.rs; single-byte, gb18030 ranges, GB18030-2022 table: snapshot of the pinned tree); hand models + correspondence runs. '
-        'Pending: encRepl_html (source-buffer bookkeeping of the NCR wrapper; character-level statement proved).'
+        'No pending theorem. Stop positions (OutputFull) are out of scope here (C04).'
     ),
 }
